@@ -361,6 +361,16 @@ def c02():
         p["cfg"] = dict(p["cfg"], short=rng.randrange(1, 1 << 30))
         p["id"] += "-short"
     res.append(("io-short", core.campaign("io-short", short, wd)))
+    # shrink / empty a file, let other files take the space (same session or after a remount), write it again
+    reuse = [gen.reuse_program(rng, "reuse-%s-%d" % (k, i), gen.K(k), CS[k]) for k in ("K1", "K1b", "K2", "K5") for i in range(scale(8, 80))]
+    res.append(("io-reuse", core.campaign("io-reuse", reuse, wd)))
+    # the device as a std::io object behind StdIoWrapper (half of the programs with short transfers)
+    std = fam_io("C02", ["K1b", "K3", "K5"], scale(10, 100), 50, salt=11)
+    for i, p in enumerate(std):
+        p["id"] += "-std"
+        if i % 2:
+            p["cfg"] = dict(p["cfg"], short=rng.randrange(1, 1 << 30))
+    res.append(("io-stdio", core.campaign("io-stdio", std, wd, feat="refstd")))
     core.finish("C02", LEVEL, res, None, t0,
                 "random and boundary (k*cluster-1, k*cluster, k*cluster+1) seek/read/write/truncate/flush/reopen programs on 1-3 interleaved files; "
                 "TLC evaluates the byte-array model on every event",
@@ -398,6 +408,16 @@ def c04():
         p["id"] += "-same"
         same.append(p)
     res.append(("same-stamps", core.campaign("same-stamps", same, wd)))
+    # volumes with exactly the largest FAT12 / smallest FAT16 / largest FAT16 / smallest FAT32 cluster count (the width is a function of the
+    # count alone): the independent decoder and the library must read the same table
+    bnd = []
+    for i in range(scale(3, 30)):
+        for ft, n in ((12, 4084), (16, 4085), (16, 65524), (32, 65525)):
+            vol, cs = small_foreign(rng, ft, n=n)
+            bnd.append(gen.io_program(rng, "bnd-io-%d-%d" % (n, i), {"vol": vol}, cs, 30))
+            vol, cs = small_foreign(rng, ft, n=n)
+            bnd.append(gen.ns_program(rng, "bnd-ns-%d-%d" % (n, i), {"vol": vol}, 25, gen.NAMES_ASCII))
+    res.append(("boundary-counts", core.campaign("boundary-counts", bnd, wd)))
     core.finish("C04", LEVEL, res, None, t0,
                 "after every call a clone of the image is mounted afresh and listed/read through the library, and the raw bytes are decoded independently; "
                 "both must equal the model tree (names, kinds, sizes, contents, stamps); extents are read straight from the device",
@@ -438,6 +458,9 @@ def c05():
                 {"op": "stats"}, {"op": "unmount"}, {"op": "stats"}, {"op": "unmount"}]
         frg.append({"id": "c05-foreign-%d" % i, "cfg": {"vol": vol}, "ops": ops, "origin": "foreign-count"})
     res.append(("foreign", core.campaign("foreign", frg, wd)))
+    # a FAT32 tree that lives above cluster 65535: files emptied, removed, directories moved; statistics after each step
+    high = [gen.foreign_high_program(rng, "c05-high-%d" % i) for i in range(scale(6, 60))]
+    res.append(("foreign-high", core.campaign("foreign-high", high, wd)))
     core.finish("C05", LEVEL, res, mc_layer_b(wd), t0,
                 "fill-to-full / delete-all cycles on tiny volumes plus mixed programs with statistics probes; TLC compares the reported count with the "
                 "table of the raw image and judges every NotEnoughSpace against the pre-state",
@@ -567,6 +590,9 @@ def c14():
         for i in range(scale(12, 120)):
             progs.append(gen.crash_program(rng, "crash-%s-%d" % (kname, i), gen.K(kname), CS[kname]))
     res = [("crash", core.campaign("crash", progs, wd))]
+    # the same kind of histories with the device handed to the library as a std::io object behind StdIoWrapper (what most users do)
+    std = [gen.crash_program(rng, "crash-std-%s-%d" % (k, i), gen.K(k), CS[k]) for k in ("K1b", "K5") for i in range(scale(10, 100))]
+    res.append(("crash-stdio", core.campaign("crash-stdio", std, wd, feat="refstd")))
     core.finish("C14", "fault_enumeration", res, mc_durable(wd), t0,
                 "histories with flush/close points followed by unrelated activity; for every prefix of the device write log after the first flush the "
                 "image left by a power cut is mounted afresh; TLC (TraceFatFs crash events) requires every file flushed before that point and not "
